@@ -1262,13 +1262,26 @@ MANIFEST = {
     "engine": "copy",
     "category": "proof",
     "design_ref": "DESIGN.md 2.9",
-    "text": "Lean 4 theorems, by induction over arbitrarily nested space trees, about an executable model of OMPL's state copy / "
-            "clone / serialize / deserialize / reals conversion / value-location enumeration / copyStateData and of the StateStorage and "
-            "PlannerDataStorage archives at record granularity (round trips, marker and signature rejection, every proper record prefix "
-            "is an error), tied to libompl by line-by-line differential runs of the real code against the compiled model, an independent "
-            "Python specification evaluated on the implementation's outputs, and an exhaustive byte-level truncation sweep of the real "
-            "loaders under ASan/LSan.",
+    "text": "Lean 4 theorems, by mutual structural induction over arbitrarily nested space trees (compounds, wrappers, zero-length "
+            "components), about an executable model of OMPL's state copy / clone / serialize / deserialize (running offsets as coded), "
+            "getValueAddressAtIndex (the compound double loop, literally) and the value-location enumeration, copyToReals/copyFromReals, "
+            "both copyStateData overloads (state transferred = exactly the common subspaces; complete ALL/SOME/NO result code incl. the "
+            "empty-compound corner), getCommonSubspaces (std::set ordering and the erase loop as coded: no common subspace is lost), "
+            "computeSignature, and of the StateStorage / PlannerDataStorage (geometric and control) archives at record granularity with "
+            "PlannerData's start/goal bookkeeping (binary searches as coded): round trips for every graph the operations can build, marker / "
+            "signature / other-kind rejection, every proper record prefix is an error (also for edge-less graphs). Tied to libompl by "
+            "line-by-line differential runs of the real code against the compiled model, an independent Python specification evaluated on "
+            "the implementation's outputs, an exhaustive byte-level truncation sweep of the real loaders, and StateSpace.cpp/StateStorage.cpp "
+            "compiled into the harness under ASan/UBSan/vptr/LSan. Open findings are proved as kernel-checked witnesses (F31, F32) and the "
+            "model also carries the repaired variant of F32, selected per run by probing the code under test.",
+    "covers": "modelled+proved: serialize/deserialize/serLen/copyState/cloneState, addrAtIndex, valueLocations(+repaired variant), reals round "
+              "trip, csd/csdNames state and result code, commonSubspaces, signature shape, storeStates/loadStates, storeGraph/loadGraph, "
+              "PlannerData add/mark/remove invariants, binary search; compared only: equalStates of copies, boost byte framing (enumerated), "
+              "substate map as printed, control-space images; sampled: the scripts (251 quick / 1321 thorough) and the truncation offsets of "
+              "archives larger than the exhaustive cap",
     "note": "Trusted: Lean kernel, the three standard axioms, the hand-written model outside the scripts the correspondence explored, the "
-            "harness, boost::archive framing (enumerated, not modelled). Spaces with equal names are assumed structurally equal.",
+            "harness (own typed state walk; global operator new/delete replaced by malloc/free wrappers so that an absurd allocation throws "
+            "std::bad_alloc under ASan), boost::archive framing (enumerated, not modelled). Spaces with equal names are assumed structurally "
+            "equal; names are unique within a space. Known findings: F31, F32, F33, F105, F106 (F29, F30 fixed).",
     "technique": "Lean 4 proof (mutual structural induction over the space tree) + differential correspondence + byte-level fault enumeration",
 }
